@@ -16,6 +16,11 @@ its own, through the library's public declaration mechanism (MemoryBank / Memory
 NumericValue / StringValue): non-contiguous, descending and scattered locations, which the API allows
 ("most efficient if contiguous") and the shipped map does not exercise.
 
+Sequences in flight at the same time: two or three read sequences (MemoryBank.read_all of one bank object, with and
+without latch, and single-value reads of that bank), each on its own bus with its own units, are advanced alternately
+command by command (harness.bus.run_interleaved) - what two drivers in one process do.  Each must pass the
+single-sequence oracle on its own unit and return what it returns when run alone.
+
 This module also holds what C10 (memory writes) shares: discovery, unit construction, the
 query-indexed fault bus.
 """
@@ -37,7 +42,11 @@ RULE = ("single value: (value class, addressing kind, image, last accessible loc
         "fault at every read index, plus Hypothesis-generated tuples; whole bank: (bank object, addressing, image, last "
         "location 0..254, hole set, use_latch, drift, fault) tuples likewise; distinct by construction (enumeration) or by "
         "fingerprint (Hypothesis); non-trivial = at least one declared value is truncated by the last location or has a "
-        "hole, or a fault is injected, or (whole bank) the latch is set while live memory drifts")
+        "hole, or a fault is injected, or (whole bank) the latch is set while live memory drifts; several sequences in "
+        "flight: (2 or 3 single-value / whole-bank tuples as above - mostly of ONE bank object, units with different "
+        "images, last locations, addressing - and the order in which the sequences advance command by command: "
+        "round-robin, blocks, head starts, nested, late start, Hypothesis-drawn); non-trivial = the sequences really "
+        "overlap in time")
 ASSUMPTIONS = [
     "bus units follow harness/model_gear.py / model_devmem.py: READ MEMORY LOCATION answers NO above the last accessible "
     "location and at unimplemented locations, advances DTR0 either way, and clears writeEnableState (IEC 62386-102 "
@@ -56,6 +65,9 @@ ASSUMPTIONS = [
     "when the lock byte (0x02) is beyond the last accessible location or unimplemented no latch can be set and none "
     "is demanded",
     "values declared by the check itself (bank object 'SYN', number 249) use only the public declaration mechanism",
+    "read sequences in flight at the same time on separate buses (one driver per DALI line in one process, stepped "
+    "alternately) are independent: each must satisfy the statement on its own unit and return exactly what it returns "
+    "when it runs alone against that unit (harness.bus.run_interleaved)",
 ]
 
 # The read_all latch defect found at the pinned commit is repaired in /repo (KNOWN_FINDINGS.txt "fixed:" line), so
